@@ -44,7 +44,9 @@ pub struct Scenario {
     pub conns: Vec<Vec<Req>>,
 }
 
-const STATICS: [&str; 14] = ["users", "users2", "user", "u", "abc", "abcd", "a.b", "a-b", "a", "b", "api", "v1", "x", "ab"];
+// the whole segment alphabet: digits (which sort below ':' and '/'), upper case (between digits and lower case),
+// '.', '-', '_' inside; byte prefixes of each other; one-character names
+const STATICS: [&str; 24] = ["users", "users2", "user", "u", "abc", "abcd", "a.b", "a-b", "a", "b", "api", "v1", "x", "ab", "404", "1", "0", "9z", "Z", "Users", "A", "a_b", "v1.2", "z9"];
 const METHODS5: [&str; 5] = ["GET", "PUT", "POST", "PATCH", "DELETE"];
 
 pub struct Gen {
